@@ -27,6 +27,58 @@ def gen_random(cs, rnd, n):
         PC.add_ref(cs, cfg, rows, rnd, spell=rnd.random() < 0.3)
 
 
+ORDER_UNI = ['null', 'false', 'true', '""', '"a"', '"A"', '"aa"', '"ab"', '"b"', '"é"', '"10"', '"9"', '0', '1', '1.0', '-1', '-1.5', '0.5', '2', '10', '9', '1e3',
+             '9007199254740991', '[]', '[1]', '[1, 2]', '[2]', '[0, 5]', '["a"]', '[[1]]', '[null]', '[10]', '[9]', '{}', '{"a": 1}', '{"b": 2, "a": 1}', '{"a": 1, "b": 2}']
+
+
+def sort_functions_and_order(chk, jvh, rnd, quick):
+    """(a) the comparison functions and `sort` on every ordered pair of a universe, (c) the sort functions on lists of up to 40 elements with many
+    ties - both against Eval of the specification (the one order JCmp, stable)."""
+    import exprgen as X
+    import exprlib as EL
+    import exprparse as EP
+    import gen_json as G
+    from streamlib import run_trace_spec
+    table = X.Table()
+    items = []
+    uni = ORDER_UNI if not quick else ORDER_UNI[::2] + ['[1, 2]', '[2]', '"10"', '"9"', '10', '9']
+    for a in uni:
+        for b in uni:
+            for f in ("<", "<=", ">", ">=", "="):
+                items.append(("(%s %s %s)" % (f, a, b), ("null",)))
+            items.append(("(sort [%s, %s])" % (a, b), ("null",)))
+    for i in range(150 if quick else 6000):
+        n = rnd.choice([2, 5, 12, 21, 25, 30, 40])
+        keys = rnd.sample(ORDER_UNI[:33], rnd.choice([2, 3, 5]))           # few distinct keys: many ties; no two different objects
+        lst = ("arr", [("obj", [(X.cps("id"), ("num", str(j))), (X.cps("k"), PL.parse_ast(rnd.choice(keys)))] if rnd.random() < 0.9 else [(X.cps("id"), ("num", str(j)))])
+                       for j in range(n)])
+        f = rnd.choice(["(sort_by . .k)", "(order_by . .k)", "(sort_by . (get . \"k\"))", "(sort (map . .k))", "(sort_unique (map . .k))",
+                        "(sort_by_values (fold . {} (put .so_far (stringify .index) .value.k)))", "(keys (sort_by_keys (fold . {} (put .so_far (stringify .value.k) .index))))",
+                        "(sort_by_values_by (fold . {} (put .so_far (stringify .index) .value)) (.get \"k\"))"])
+        items.append((f, lst))
+    cases = []
+    for i, (txt, inp) in enumerate(items):
+        c = EL.select_case(txt, inp)
+        c["id"] = i
+        cases.append(c)
+    obs = run_cases(jvh, cases)
+    recs = [{"case": i, "kind": "eval", "ast": X.strip(EP.parse(txt, table)), "ctx": EL.ctx_of(inp), "res": EL.observed_value(obs[i])} for i, (txt, inp) in enumerate(items)]
+    flags, res = run_trace_spec("Trace_Expr", recs, "c07e", nproc=4 if quick else 14)
+    skipped = {c for k, c, w in flags if k == "SKIP"}
+    chk.traces += len(recs) - len(skipped)
+    chk.evaluations += len(cases)
+    chk.notes["order_pairs_and_sort_function_cases"] = len(recs) - len(skipped)
+    for kind, case, what in flags:
+        if kind == "SKIP":
+            continue
+        txt, inp = items[case]
+        if kind == "MISMATCH":
+            chk.violation("C07 %s on %s gives %s; %s" % (txt, G.canonical(inp).decode("utf-8")[:200], bytes.fromhex(obs[case]["out"]).decode("utf-8", "replace").strip()[:200], what[:200]),
+                          {"expression": txt, "input": G.canonical(inp).decode("utf-8"), "flag": what})
+        else:
+            raise ToolError("%s flag from Trace_Expr on %s: %s" % (kind, txt, what))
+
+
 def check(tier, seed, replay=None):
     chk = Check("C07", tier, seed)
     chk.rule = ("a case is one run with 1..3 --sort-by keys (ASC/DESC/omitted in random letter case) over a history of up to 40 rows whose keys "
@@ -34,7 +86,8 @@ def check(tier, seed, replay=None):
                 "sort of the specification; distinct = distinct (argv, stdin); non-trivial = at least 3 rows and at least one tie or absent key")
     chk.assumptions = ["numbers restricted to the interoperable range; at most one distinct object among the keys of a run (the order between two "
                        "different objects is not documented); the order axioms over all triples are checked on the specification (MC_Order)",
-                       "the sort *functions* and the comparison functions are bound to the same order through the expression oracle (C04 engine) - see DESIGN"]
+                       "the sort functions (sort, sort_by, sort_unique, sort_by_values(_by), sort_by_keys) and < <= > >= = are compared with Eval of Expr.tla, "
+                       "which uses the same JCmp and a stable insertion sort, on every ordered pair of a 37-value universe and on lists of up to 40 elements with many ties"]
     jvh = build_harness()
     rnd = random.Random(seed)
     cs = PC.Cases()
@@ -58,5 +111,7 @@ def check(tier, seed, replay=None):
         chk.notes["model_behaviours_replayed"] = nb
         gen_random(cs, rnd, 400 if quick else 20000)
     per, recs = PC.run_and_validate(chk, jvh, cs, "c07", nproc=2 if tier == "quick" else 12)
+    if not replay:
+        sort_functions_and_order(chk, jvh, rnd, tier == "quick")
     PC.summarize(chk, cs, per, lambda rc: len(rc["input"]) >= 3)
     return chk.finish()
